@@ -31,6 +31,12 @@ package eng
 //	quiescent-state        at quiescence state is Executing / JobQueued / Ready* per the statement
 //	lastScheduled-monotone / lastExecuted-monotone    successive API values never decrease (E-API: occ=1)
 //	lastScheduled-ge-observed / lastExecuted-ge-observed   API value >= every schedule/start time a completed sync has listed, for ever
+//	lastScheduled-ge-any-job / lastExecuted-ge-any-job   the property's own clause with ground truth: at quiescence
+//	                       the API value >= the schedule / start time of EVERY Job the JobConfig ever had (the harness
+//	                       knows them all), also of Jobs that are gone.  Judged on generated cases only inside
+//	                       E-JobObservedBeforeGone (every Job that is gone was listed, with its final schedule and
+//	                       start time, by a completed sync of its JobConfig before it left the Job cache); what
+//	                       happens outside is known finding F33 (scenario f33-job-never-observed-misses-lastScheduled)
 //	fixpoint-noop          at quiescence one more SyncOne writes nothing
 //	enqueue-owner          (E-OwnerLabel jobs) a Job event enqueues exactly the key of its JobConfig when that is cached
 
@@ -190,6 +196,7 @@ type jcsWorld struct {
 
 	apiJobs   map[string]*jcsJob
 	everJobs  []*execution.Job // every Job that was ever on the API in this case (for the E-OwnerLabel tag)
+	everRecs  []jcsJob         // ... with the harness' record of its schedule / start time (one entry per version)
 	apiJCs    map[string]*execution.JobConfig
 	cacheJobs map[string]*jcsJob
 	cacheJCs  map[string]*execution.JobConfig
@@ -197,6 +204,9 @@ type jcsWorld struct {
 	pendJC    []jcsEvent
 
 	obsSched, obsStart map[string]int64  // by JobConfig uid: max schedule/start time listed by a completed sync
+	obsJobSched        map[string]int64  // by JobConfig uid + "/" + Job uid: schedule time listed by a completed sync
+	obsJobStart        map[string]int64  // ... start time
+	anyJobAlarm        bool              // scenario mode: raise the any-job monitors outside E-JobObservedBeforeGone too
 	prevLS, prevLE     map[string]*int64 // by JobConfig uid: last value seen on the API
 	writes             int               // status writes accepted by the API in this case
 }
@@ -208,6 +218,7 @@ func (e *jcsEnv) newWorld(c *Ctx, rng *rand.Rand, occ bool, mode string) *jcsWor
 		apiJobs: map[string]*jcsJob{}, apiJCs: map[string]*execution.JobConfig{},
 		cacheJobs: map[string]*jcsJob{}, cacheJCs: map[string]*execution.JobConfig{},
 		obsSched: map[string]int64{}, obsStart: map[string]int64{},
+		obsJobSched: map[string]int64{}, obsJobStart: map[string]int64{},
 		prevLS: map[string]*int64{}, prevLE: map[string]*int64{}}
 	e.cur = w
 	e.q.keys, e.q.added = nil, nil
@@ -624,6 +635,7 @@ func (w *jcsWorld) putJob(j *jcsJob, what string) {
 	snap := *j
 	snap.obj = j.obj.DeepCopy()
 	w.everJobs = append(w.everJobs, snap.obj)
+	w.everRecs = append(w.everRecs, snap)
 	w.pendJob = append(w.pendJob, jcsEvent{kind: "set", job: &snap})
 	w.c.Emit("jcstatus.truth "+what+" "+jcsJobTokens(j.obj), "ok")
 }
@@ -912,14 +924,21 @@ func (w *jcsWorld) observe(cached *execution.JobConfig) {
 		if !jcsLabelled(j.obj, cached) {
 			continue
 		}
+		jk := uid + "/" + string(j.obj.UID)
 		if j.schedJudged && j.sched != nil {
 			if v, ok := w.obsSched[uid]; !ok || v < *j.sched {
 				w.obsSched[uid] = *j.sched
+			}
+			if v, ok := w.obsJobSched[jk]; !ok || v < *j.sched {
+				w.obsJobSched[jk] = *j.sched
 			}
 		}
 		if j.start != nil {
 			if v, ok := w.obsStart[uid]; !ok || v < *j.start {
 				w.obsStart[uid] = *j.start
+			}
+			if v, ok := w.obsJobStart[jk]; !ok || v < *j.start {
+				w.obsJobStart[jk] = *j.start
 			}
 		}
 	}
@@ -999,6 +1018,7 @@ func (w *jcsWorld) quiesce() {
 		}
 		w.c.Count("jcstatus.quiescent.judged")
 		w.judge(jc, jcsBelongs, "")
+		w.judgeAnyJob(jc)
 	}
 	if needResync {
 		// outside E-OwnerLabel the Job handlers do not route label-only Jobs; the periodic resync of
@@ -1018,6 +1038,70 @@ func (w *jcsWorld) quiesce() {
 				w.c.Violate("C15", "fixpoint-noop", "%s: one more SyncOne at quiescence gave %s", key, o)
 			}
 		}
+	}
+}
+
+// judgeAnyJob: the property's clause "at least the latest schedule time / start time of ANY of
+// its Jobs, even after those Jobs are deleted", against the harness' record of every Job the
+// JobConfig ever had (inside E-OwnerLabel).  The controller can only know the Jobs that were in
+// its cache at a sync: a generated history in which a Job left the server without having been
+// listed (with its final times) by a completed sync is outside E-JobObservedBeforeGone and is
+// counted, not judged (known finding F33); corpus scenarios set anyJobAlarm and judge it anyway.
+func (w *jcsWorld) judgeAnyJob(jc *execution.JobConfig) {
+	if !w.occ {
+		return
+	}
+	uid := string(jc.UID)
+	var maxSched, maxStart *int64
+	inEnvelope := true
+	for i := range w.everRecs {
+		r := &w.everRecs[i]
+		if !jcsBelongs(r.obj, jc) || !jcsLabelled(r.obj, jc) {
+			continue
+		}
+		_, onAPI := w.apiJobs[jcsKey(r.obj.Namespace, r.obj.Name)]
+		onAPI = onAPI && w.apiJobs[jcsKey(r.obj.Namespace, r.obj.Name)].obj.UID == r.obj.UID
+		jk := uid + "/" + string(r.obj.UID)
+		if r.schedJudged && r.sched != nil {
+			if jcsTimeLess(maxSched, r.sched) {
+				maxSched = r.sched
+			}
+			if v, ok := w.obsJobSched[jk]; !onAPI && (!ok || v < *r.sched) {
+				inEnvelope = false
+			}
+		}
+		if r.start != nil {
+			if jcsTimeLess(maxStart, r.start) {
+				maxStart = r.start
+			}
+			if v, ok := w.obsJobStart[jk]; !onAPI && (!ok || v < *r.start) {
+				inEnvelope = false
+			}
+		}
+	}
+	if maxSched == nil && maxStart == nil {
+		return
+	}
+	if !inEnvelope {
+		w.c.Count("jcstatus.envelope.outside-E-JobObservedBeforeGone")
+		if !w.anyJobAlarm {
+			// still worth knowing how often the status really is behind in such a history
+			if jcsTimeLess(jcsUnixPtr(jc.Status.LastScheduled), maxSched) {
+				w.c.Count("jcstatus.observed.lastScheduled-below-a-gone-unobserved-job")
+			}
+			if jcsTimeLess(jcsUnixPtr(jc.Status.LastExecuted), maxStart) {
+				w.c.Count("jcstatus.observed.lastExecuted-below-a-gone-unobserved-job")
+			}
+			return
+		}
+	} else {
+		w.c.Count("jcstatus.envelope.inside-E-JobObservedBeforeGone")
+	}
+	if jcsTimeLess(jcsUnixPtr(jc.Status.LastScheduled), maxSched) {
+		w.c.Violate("C15", "lastScheduled-ge-any-job", "%s: lastScheduled=%s at quiescence, but the JobConfig had a Job with schedule time %d", jc.Name, jcsOptT(jc.Status.LastScheduled), *maxSched)
+	}
+	if jcsTimeLess(jcsUnixPtr(jc.Status.LastExecuted), maxStart) {
+		w.c.Violate("C15", "lastExecuted-ge-any-job", "%s: lastExecuted=%s at quiescence, but the JobConfig had a Job started at %d", jc.Name, jcsOptT(jc.Status.LastExecuted), *maxStart)
 	}
 }
 
@@ -1185,6 +1269,7 @@ func (w *jcsWorld) population(maxJobs int, ties, malformed bool) {
 			}
 			w.apiJobs[key] = j
 			w.everJobs = append(w.everJobs, j.obj.DeepCopy())
+			w.everRecs = append(w.everRecs, *j)
 			w.cacheJobDirect(j)
 			w.c.Count(fmt.Sprintf("jcstatus.gen.own%d.stage%d", jcsOwnClass(j.obj, jc), stage))
 		}
@@ -1503,6 +1588,39 @@ func jcsScenarios(c *Ctx, e *jcsEnv) {
 			w.c.Violate("C15", "quiescent-lists-exact", "jc0: queuedJobs {%s} queued=%d state=%s, but no Job exists", jcsNameSet(st.QueuedJobs), st.Queued, st.State)
 		}
 		w.quiesce() // (resync path) repaired after the JobConfig resync
+	})
+
+	// KNOWN FINDING F33: "lastScheduled / lastExecuted are at least the latest schedule / start time of ANY
+	// of its Jobs, even after those Jobs are deleted".  SyncOne derives both from the Jobs that are in the
+	// Job cache at the moment of the sync.  Job j2 (schedule time T+10, started) is created and deleted
+	// (user, or TTL after finishing quickly) while the JobConfig's key waits in the work queue (worker
+	// busy, key rate-limited after an error): both events reach the cache before the sync runs, the sync
+	// lists j1 only, and with every event delivered and the queue empty the status stays at j1's times
+	// for ever.  The same happens across a restart of the controller (a Job deleted while it is down
+	// gets no notification at all).  Lean: Props/C15 job_never_observed_witness; composed with the cron
+	// model (the time is requested again after a restart): Compose.unobserved_job_rerequested_witness,
+	// system-engine scenario f33-job-never-observed-rerequested-after-restart.
+	e.scenario(c, "f33-job-never-observed-misses-lastScheduled", true, "exact", func(w *jcsWorld) {
+		w.anyJobAlarm = true
+		jc := w.createJC("nsa", "jc0", 1, execution.JobConfigStatus{})
+		key := jcsKey("nsa", "jc0")
+		w.drain()
+		j1 := w.newJob(jc, "j1", jcsOwnNormal, jcsActive, 1000, ann(1000), false)
+		w.putJob(j1, "create")
+		w.drain() // j1 observed: lastScheduled = 1000
+		j2 := w.newJob(jc, "j2", jcsOwnNormal, jcsActive, 1010, ann(1010), false)
+		w.putJob(j2, "create")
+		w.removeJob(jcsKey("nsa", "j2"), "delete")
+		w.deliverJob() // add: enqueues nsa/jc0 ...
+		w.deliverJob() // ... delete: the key is still waiting for its worker
+		if len(w.e.q.keys) == 1 {
+			w.c.Count("jcstatus.witness.f33-key-queued-once-for-add-and-delete")
+		}
+		w.sync(key) // lists j1 only
+		if ls := w.apiJCs[key].Status.LastScheduled; ls != nil && ls.Unix() == 1000 {
+			w.c.Count("jcstatus.witness.f33-lastScheduled-stays-below-deleted-job")
+		}
+		w.quiesce()
 	})
 
 	// equal creation timestamps (compared as sets)
